@@ -120,14 +120,14 @@ def _rand_model_once(rng, P):  # noqa: C901, PLR0912, PLR0915
         has_a = True
 
     # ------------------------------------------------------------------ variables
-    nw = rng.choice([3, 5])
+    nw = rng.choice([3, 5, 3, 5, 2])          # 2: a single cell, every evaluation point is in or beyond the boundary cell
     sw = rng.choice([1, 2])
     nc = rng.choice([2, 3, 5])
     sc = rng.choice([F(1), F(1, 2)]) if sw == 1 else F(1)
     na = rng.choice([2, 3])
     nb = rng.choice([2, 3])
     nr = rng.choice([2, 3])
-    nh, ne = 2, 3
+    nh, ne = rng.choice([2, 2, 3, 4]), 3
     sz = P.get("sizes") or {}
     nw, nc, na, nb, nr, nh, ne = (sz.get("w", nw), sz.get("c", nc), sz.get("a", na), sz.get("b", nb),
                                   sz.get("r", nr), sz.get("h", nh), sz.get("e", ne))
